@@ -1061,7 +1061,7 @@ def sortCompute (c : Ctx) (db : Db) (xs : List Bytes) (isSet : Bool) (by_ : Opti
         | some v => Value.bulk v
         | none => Value.nil
     (out, if hasNan || (noSort && isSet && limit.isSome) then Match.custom "any"
-          else if noSort && isSet && gets'.length == 1 then Match.unordered else Match.exact)
+          else if noSort && isSet then Match.unordered else Match.exact)   -- several GETs: the groups come in any order
 
 /-- reply, or the stored list: the destination is replaced, an empty result leaves no key -/
 def sortFinish (db : Db) (store : Option Bytes) (out : List Value) (hint : Match) : R :=
